@@ -187,7 +187,7 @@ func (d *driver) writeEvidence(prop, tier string, master uint64, agg *WorkerSumm
 			"components_real":           real,
 			"components_stub":           stub,
 			"worker_count":              d.workers,
-			"gomaxprocs_used":           []int{1, 4, 16},
+			"gomaxprocs_used":           map[bool][]int{false: {1, 4, 16}, true: {1}}[d.forceGMP1],
 			"runs_by_leg":               agg.LegRuns,
 			"inconclusive_runs":         agg.Inconclusive,
 			"known_findings_reproduced": kn,
